@@ -231,7 +231,8 @@ fn observe(w: &mut VWorld) -> String {
         let mut rep = s.reply_log.clone();
         let rest = drain(&s.reply_rx, reply_str);
         if rest.len() > 2 { rep.push(rest[1..rest.len() - 1].to_string()); }
-        o += &format!("|{}{{present={},reply=[{}]", s.name, w.inner.chan_slots.get(s.id).is_some(), rep.join(","));
+        let hs = match w.inner.chan_slots.get(s.id) { Some(sl) => format!("{}{}", sl.return_handler.is_some() as u8, sl.pub_confirm_handler.is_some() as u8), None => "--".to_string() };
+        o += &format!("|{}{{present={},h={},reply=[{}]", s.name, w.inner.chan_slots.get(s.id).is_some(), hs, rep.join(","));
         for (i, (_, rx)) in s.consumers.iter().enumerate() {
             if let Some(rx) = rx { o += &format!(",c{}={}", i, drain(rx, cm_str)); }
         }
@@ -351,6 +352,10 @@ def engine_cm_str(prog, msg, nm):
     return vn
 
 
+def slot_field_index(prog, name):
+    return prog.types.fields('ChannelSlot').index(name)
+
+
 def engine_obs(prog, s, w, results, nm, base_items=1):
     o = 'res=[' + ','.join(('Ok' if r == 'Ok' else f"Err({r})") for r in results) + ']'
     o += f"|state={state_name(prog, w)}"
@@ -386,7 +391,12 @@ def engine_obs(prog, s, w, results, nm, base_items=1):
         rep = [engine_reply_str(prog, m_, nm) for m_ in info.get('reply_log', [])] + [engine_reply_str(prog, m_, nm) for m_ in queue_msgs(info['reply'])]
         if info['reply'].senders == 0:
             rep.append('closed')
-        o += f"|{name}{{present={'true' if nm.b(e[2]) else 'false'},reply=[{','.join(rep)}]"
+        if nm.b(e[2]):
+            sv_ = e[1].value
+            hs = ''.join(str(int(sv_.fields[k_].disc)) if isinstance(sv_.fields[k_].disc, int) else str(nm.i(sv_.fields[k_].disc)) for k_ in (slot_field_index(prog, 'return_handler'), slot_field_index(prog, 'pub_confirm_handler')))
+        else:
+            hs = '--'
+        o += f"|{name}{{present={'true' if nm.b(e[2]) else 'false'},h={hs},reply=[{','.join(rep)}]"
         for i, (cn, (t, cq)) in enumerate(info['consumers'].items()):
             o += f",c{i}={engine_queue(cq, lambda m: engine_cm_str(prog, m, nm))}"
         if info['ret'] is not None and nm.b(info['ret'].rx_alive):
